@@ -16,6 +16,7 @@
 //
 // scenario seq     one exclusive resource, program = ops separated by '.':
 //   a:B:AL  allocate(B, AL)      t:B:AL  allocate<AL>(B)     v:B:AL  through the pmr vtable
+//   x:D:AL  allocate(space left in the page after aligning + D, AL)
 //   am:N:B:AL  N times a:B:AL    d  register_destructor       dm:N   N times d
 //   c:V  contains(vaddr V; -1 = a heap pointer)   cb:I:OFF  contains(block I + OFF)
 //   cf:D contains(free_begin + D)   ce:D contains(free_end + D)
@@ -374,6 +375,13 @@ void scenario_seq(const vrun::Params& p) {
     const std::string& op = f[0];
     if (op == "a" || op == "t" || op == "v") {
       do_alloc(op[0], (size_t)num(1), (size_t)num(2));
+    } else if (op == "x") {
+      // (space left in the current page after aligning) + D bytes: the exact fits / does-not-fit boundary
+      size_t al = num(2) > 0 ? (size_t)num(2) : 1;
+      uintptr_t f = ((uintptr_t)r->_free_begin + al - 1) & ~(uintptr_t)(al - 1);
+      long rem = (long)((uintptr_t)r->_free_end - f);
+      long b = rem + num(1);
+      do_alloc('a', (size_t)(b < 0 ? 0 : b), al);
     } else if (op == "am") {
       for (long i = 0; i < num(1); i++) do_alloc('a', (size_t)num(2), (size_t)num(3));
     } else if (op == "d") {
